@@ -21,7 +21,7 @@ from harness.tlaparse import iter_dump_states
 TOK_Q = ["a", " ", "%", "?", "#", "|", "+", "&", "\"", "^", ":", "..", "%41", "wap", "GEMINI-QUERY"]
 TIERS = {
     "quick": dict(tokens=TOK_Q, maxtok=2, shapes=["wapiti", "a b 1", "GEMINI-QUERYx", "URL:a"],
-                  inner=["a", " ", "%", "?", "|", "^", "wap", "URL:a", "a b 1", "x:y"], kinds2=["file"],
+                  inner=["a", " ", "%", "?", "|", "^", "wap", "URL:a", "a b 1", "x:y", "a\rb"], kinds2=["file"],
                   deep=["{{"],
                   views=["G", "GP", "GD", "SG", "H", "HS", "W", "M", "S"], hls=["default", "full"],
                   full_only_kinds=("zip",), hi=[0xFF]),
@@ -29,7 +29,7 @@ TIERS = {
                      shapes=["wapiti", "a b 1", "GEMINI-QUERYx", "URL:a", "a  2", "x y 10", "URL:a?b", "a%2Fb",
                              "PYGOPHERD-HTTPPROTO-ICONS"],
                      inner=["a", " ", "%", "?", "#", "|", "+", "&", "\"", "^", ":", "..", "%41", "URL:a", "a b 1", "x:y",
-                            "text.gif", "wap", "GEMINI-QUERY"], kinds2=["file", "mbox", "dir"],
+                            "text.gif", "wap", "GEMINI-QUERY", "a\rb", "a\fb", "\ra"], kinds2=["file", "mbox", "dir"],
                      deep=["{{", "}}", "{^{", "{%{"],
                      views=["G", "GP", "GD", "SG", "SGP", "SGD", "H", "HS", "W", "M", "S"], hls=["default", "full"],
                      full_only_kinds=None, hi=[0xFF, 0xE9]),
@@ -252,7 +252,7 @@ def main(chk, replay=None):
         "the per-protocol client (request syntax, reference resolution) is harness code, but every request is "
         "re-derived by TLC from Links!Follow and a deviation stops the check as a machinery failure",
         "names: tokens over byte classes; '^' is materialised as the byte(s) listed in tier_parameters.hi",
-        "advertised kind: Gopher type 1 = menu, other types = document; HTTP MIME column gopher-menu = menu; "
+        "advertised kind: Gopher type 1 = menu, other types = document; HTTP: the icon of the Gopher type (folder.gif = menu); "
         "WAP/Gemini/Spartan listings do not advertise a kind (success only)",
     ])
 
